@@ -311,6 +311,47 @@ def resolvePercentages (isPage : Bool) (s : Style) (cbW : Rat) (cbH : Len) : Exc
          borderLeft := s.borderLeft, borderRight := s.borderRight, borderTop := s.borderTop,
          borderBottom := s.borderBottom }
 
+/-- The `border_collapse` special case of `resolve_percentages`: with `border-collapse: collapse` a
+`border_*_width` already set on the box by the border conflict resolution (tables) is kept, else the
+computed style value is used:
+`if not (collapse and hasattr(box, prop)): setattr(box, prop, box.style[prop])`. -/
+def effectiveBorder (collapse : Bool) (preset : Option Rat) (styleWidth : Rat) : Rat :=
+  match collapse, preset with
+  | true, some w => w
+  | _, _ => styleWidth
+
+/-- `resolve_percentages` with the four optional pre-set border widths (top, right, bottom, left as in the
+Python loop). -/
+def resolvePercentagesCollapse (isPage collapse : Bool) (presetTop presetRight presetBottom presetLeft : Option Rat)
+    (s : Style) (cbW : Rat) (cbH : Len) : Except BErr Used :=
+  resolvePercentages isPage
+    { s with borderTop := effectiveBorder collapse presetTop s.borderTop,
+             borderRight := effectiveBorder collapse presetRight s.borderRight,
+             borderBottom := effectiveBorder collapse presetBottom s.borderBottom,
+             borderLeft := effectiveBorder collapse presetLeft s.borderLeft } cbW cbH
+
+/-- `resolve_position_percentages(box, (cb_width, cb_height))`: `left`, `right` against the width, `top`,
+`bottom` against the height. -/
+def resolvePosition (left right top bottom : DimQ) (cbW cbH : Rat) : Except BErr (Len × Len × Len × Len) := do
+  let l ← percentageQ left cbW
+  let r ← percentageQ right cbW
+  let t ← percentageQ top cbH
+  let b ← percentageQ bottom cbH
+  pure (l, r, t, b)
+
+/-- One corner of `resolve_radii_percentages(box)`: `(0px, _)` or `(_, 0px)` is `(0, 0)`; a corner on a
+side whose decoration was removed (fragmentation) is `(0, 0)`; else the horizontal radius is resolved
+against the border-box width and the vertical one against the border-box height. -/
+def resolveRadius (rx ry : DimQ) (sideRemoved : Bool) (borderW borderH : Rat) : Except BErr (Rat × Rat) :=
+  if rx = .px 0 || ry = .px 0 then .ok (0, 0)
+  else if sideRemoved then .ok (0, 0)
+  else do
+    let x ← percentageQ rx borderW
+    let y ← percentageQ ry borderH
+    match x, y with
+    | some x, some y => pure (x, y)
+    | _, _ => .error (.unsupported "radius:auto")
+
 /-! ## `block_level_width` -/
 
 inductive Dir where
